@@ -24,7 +24,7 @@ import (
 func TestVerifC18(t *testing.T) {
 	vfMain(t, vfCheck{
 		ID: "C18", Level: "exploration",
-		Rule:        "seeded determinate phased programs (phases of up to 64 pipelined READs of files with distinct contents, WRITEs to disjoint ranges, mixed path/handle commands; one program in four with WithMaxTxPacket/WithRSMaxTxPacket raised to 64 KiB..256 KiB and READs around that size) served twice by the same server kind on identical state, allocator off and on (every second program with a second session of another server instance reading beside it); delays at the send/worker hooks, bounded transport. A class is (server, phase shape, buffer mode); non-trivial when pages were reused (allocGet returned a previously released page).",
+		Rule:        "seeded determinate phased programs (phases of up to 64 pipelined READs of files with distinct contents, WRITEs to disjoint ranges, mixed path/handle commands; one program in four with WithMaxTxPacket/WithRSMaxTxPacket raised to 64 KiB..300000 bytes and READs around that size and around the 256 KiB page size) served twice by the same server kind on identical state, allocator off and on (every second program with a second session of another server instance reading beside it); delays at the send/worker hooks, bounded transport. A class is (server, phase shape, buffer mode); non-trivial when pages were reused (allocGet returned a previously released page).",
 		Assumptions: []string{"race detector on", "at quiescence the receive loop legitimately holds one page tagged with the next, not yet assigned order id"},
 		Units: func(tier vfTier, seed uint64) int {
 			if tier == vfThorough {
@@ -315,7 +315,7 @@ func c18Run(u *vfUnit) {
 		// the fourth program of a unit runs with a raised maximum payload (up to the 256 KiB page size)
 		e.maxTx = 0
 		if pi == 3 {
-			e.maxTx = []uint32{65536, 262144, 100000, 262131}[(u.Index/2)%4]
+			e.maxTx = []uint32{65536, 262144, 100000, 300000, 262131}[(u.Index/2)%5]
 			u.Count("programs_with_raised_max_payload", 1)
 		}
 		c18Fill(e, u)
